@@ -106,7 +106,7 @@ func baseKey(name string) string {
 
 func explicitKind(k string) bool {
 	switch {
-	case k == "ensures", k == "invariant-init", k == "invariant-step", k == "decreases", k == "assert", k == "assigns", k == "unwind", k == "vacuity", k == "ground", k == "frozen", k == "split-exhaustive", k == "spec-termination", k == "measure", k == "writers", k == "noninterference":
+	case k == "ensures", k == "invariant-init", k == "invariant-step", k == "decreases", k == "assert", k == "cut", k == "assigns", k == "unwind", k == "vacuity", k == "ground", k == "frozen", k == "split-exhaustive", k == "spec-termination", k == "measure", k == "writers", k == "noninterference":
 		return true
 	case strings.HasPrefix(k, "requires@"):
 		return true
